@@ -114,7 +114,7 @@ pub open spec fn local_spec(scopes: Seq<Scope>, sm: &SymbolMap, name: EcoString,
     if n == 0 || n > scopes.len() { None } else { match local_at(&scopes[n - 1], sm, name) { Some(x) => Some(x), None => local_spec(scopes, sm, name, (n - 1) as nat) } }
 }
 pub open spec fn resolve_spec(scopes: Seq<Scope>, sm: &SymbolMap, name: EcoString) -> Option<SymbolId> {
-    match local_spec(scopes, sm, name, scopes.len()) { Some(x) => Some(x), None => match sp_def(sm, name) { Some(d) => Some(SymbolId::RecordId(d)), None => None } }
+    match local_spec(scopes, sm, name, scopes.len()) { Some(x) => Some(x), None => match sp_def(sm, name) { Some(d) => Some(SymbolId::RecordId(d)), None => match sp_defset(sm, name) { Some(d) => Some(SymbolId::DefsetId(d)), None => None } } }
 }
 impl Scopes { pub closed spec fn all(&self) -> Seq<Scope> { self.scopes@ } }
 ''')
@@ -156,7 +156,7 @@ U.fn(CTX, 'IndexCtx::pop_file', requires=[C('old(self).file_trace@.len() > 0', '
      ensures=[C('final(self).file_trace@ =~= old(self).file_trace@.drop_last()', 'C05'), 'final(self).scopes == old(self).scopes',
               'final(self).indexed_files == old(self).indexed_files'])
 U.fn(CTX, 'IndexCtx::resolve_id', tags='C05', prologue='proof { ax_into_sym(); }',
-     ensures=[C('ret == resolve_spec(self.scopes.all(), &self.symbol_map, *name)', 'C05', name='a name resolves to the innermost local declaration; global defs are consulted last')])
+     ensures=[C('ret == resolve_spec(self.scopes.all(), &self.symbol_map, *name)', 'C05', name='a name resolves to the innermost local declaration; the globals - defs, then completed defsets - are consulted last')])
 U.fn(CTX, 'IndexCtx::resolve_id_in_current_scope', requires=[C('frames(self).len() > 0', 'C03')])
 U.fn(CTX, 'IndexCtx::error', requires=[C('old(self).file_trace@.len() > 0', 'C03', name='error() needs a current file')],
      ensures=['final(self).scopes == old(self).scopes', 'final(self).file_trace == old(self).file_trace', 'final(self).indexed_files == old(self).indexed_files',
@@ -196,7 +196,7 @@ OUTLINES = {
   'SimpleValue': [
       dict(rx=r'bits\.value_list\(\)\?\.values\(\)\.count\(\)', name='o_bits_len', sig='(vl: ast::ValueList) -> usize', call='o_bits_len(bits.value_list()?)', subst=[('bits.value_list()?', 'vl')],
            why='Iterator::count'),
-      dict(move=True, rx=r'let mut value_types = list.*?\.or\(Some\(Type::List\(Box::new\(Type::Any\)\)\)\)', name='o_list_type',
+      dict(move=True, rx=r'let (?:mut )?value_types(?:: Vec<Type>)? = list.*?\.or\(Some\(Type::List\(Box::new\(Type::Any\)\)\)\)', name='o_list_type',
            sig='(list: &ast::List, ctx: &mut IndexCtx) -> (r: Option<Type>)', call='o_list_type(list, ctx)', requires=['cwf(old(ctx))'], ensures=FRAME_ENS,
            why='lazy filter_map over a closure that captures ctx (&mut); ASSUMED frame contract: the element values are indexed through Value::index, which restores both stacks'),
       dict(rx=r'arg_list\.args\(\)\.filter_map\(\|it\| it\.value\(\)\)', name='o_dag_arg_values', sig='(arg_list: &ast::DagArgList) -> std::vec::IntoIter<ast::Value>', call='o_dag_arg_values(&arg_list)',
@@ -233,7 +233,7 @@ _sv.rebind = [(r'ctx\.symbol_map\.add_reference\(([^,()]+), ([^;]*)\)(?=;\s*matc
                'a use of a name is recorded as a reference of the symbol the lookup (innermost declaration first, global defs last) resolves it to, at the identifier\'s own range in the current file')]
 FRAME = dict(requires=[C('cwf(old(ctx))', 'C03 C05')], ensures=[C('cwf(final(ctx))', 'C03 C05'), C('restored(final(ctx), old(ctx))', 'C05'),
                                                                  C('old(ctx).indexed_files@.subset_of(final(ctx).indexed_files@)', 'C16')])
-U.fn(I, 'index_name_value', **FRAME)
+U.fn(I, 'index_name_value', attrs=['exec_allows_no_decreases_clause'], loops={0: dict(invariant=LOOPINV)}, **FRAME)
 U.fn(I, 'resolve_class_ref_as_class', attrs=['external_body'], **FRAME)
 U.fn(I, 'resolve_class_ref_as_multiclass', attrs=['external_body'], **FRAME)
 # check_template_args: verified.  Its three iterator-adapter expressions are outlined (R14) into external_body helpers; the
